@@ -57,6 +57,8 @@ def attribute(run, line, verdict):
     if scn == "switch":
         # a context restored wrongly usually ends in a crash
         return "C11+C02" if verdict.startswith("crash") else "C11"
+    if scn == "ryt":
+        return "C02+C11"          # resume_yield_to with the yielder's pool served by other streams
     if scn == "xjoin":
         return "C06"
     if scn == "cancelmix":
@@ -123,9 +125,11 @@ def run_exec(pid, tier, seed, emphasis, scns=("exec",), pre=None):
                     continue
                 if scn == "cancelmix" and nes < 1:
                     continue
-                for off in range(0, n, per):
+                if scn == "ryt" and (cfg != 4 or nes < 2):
+                    continue
+                for off in range(0, n * (6 if scn == "ryt" else 1), per):
                     jobs.append(dict(exe=exe, scn=scn, seed0=seed * 1000000 + emphasis * 100000 + 1 + off,
-                                     count=min(per, n - off), opts=("nes=%d" % nes, "cfg=%d" % cfg),
+                                     count=per, opts=("nes=%d" % nes, "cfg=%d" % cfg),
                                      env={"ABTV_BUDGET": "400000"}))
         if not quick:
             for cfg in range(6):
